@@ -148,6 +148,28 @@ func TestAssumedContracts(t *testing.T) {
 		checkSplit(s, ";")
 	}
 
+	// ---- bytes.HasSuffix / bytes.TrimSuffix with a one-byte suffix
+	chkSuf := func(b []byte) {
+		use("bytes.TrimSuffix")
+		suf := []byte{0}
+		has := len(b) >= 1 && b[len(b)-1] == 0
+		if bytes.HasSuffix(b, suf) != has {
+			fail("hassuffix", "%q", b)
+		}
+		tr := bytes.TrimSuffix(b, suf)
+		if has && !(len(tr) == len(b)-1 && (len(tr) == 0 || &tr[0] == &b[0])) {
+			fail("trimsuffix-present", "%q -> %q", b, tr)
+		}
+		if !has && !(len(tr) == len(b) && (len(tr) == 0 || &tr[0] == &b[0])) {
+			fail("trimsuffix-absent", "%q -> %q", b, tr)
+		}
+	}
+	allStrings("\x00a", 8, func(s string) { chkSuf([]byte(s)) })
+	chkSuf(nil)
+	for i := 0; i < 5000; i++ {
+		chkSuf(randBytes(r, r.Intn(30), []byte{0, 0, 1, 'x'}))
+	}
+
 	// ---- regexp: FindString of a pattern anchored at the start returns a prefix; len(result) <= len(s)
 	anchored := []string{`^[a-z]+(\.[a-z0-9]+([-][a-z0-9]+)*)+`, `^[a-z]+`, `^(?:a|b)c*`, `^xn--[a-z0-9]+(\.[a-z0-9]+)*`, `^[A-Za-z]([-]*[A-Za-z0-9])*(\.[A-Za-z0-9]([-]*[A-Za-z0-9])*)+`}
 	for _, pat := range anchored {
